@@ -43,6 +43,9 @@ def run(ctx):
     # steered by the structure: a chosen child (every index 0..15 over the runs) of an exactly full inner node is made to
     # split - with the root as that node and with an inner node below the root (cascading splits at every alignment)
     drive_tv(ctx, "tree", "Trace_Tree", "tv_Id1300.cfg", "tree", variant="cascade:1300", runs=ctx.pick(16, 64), ops=ctx.pick(10, 100), timeout=3000)
+    # four levels (a monotone fill of 1300 keys), then the key at one slot of one inner node - root, second or third level -
+    # is deleted again and again (the predecessor is fetched from two or three levels below)
+    drive_tv(ctx, "tree", "Trace_Tree", "tv_Id1300.cfg", "tree", variant="deep:1300", runs=ctx.pick(4, 16), ops=ctx.pick(3, 8), timeout=3000)
     drive_tv(ctx, "tree", "Trace_Tree", "tv_Coarse40.cfg", "tree", variant="coarse:40", runs=ctx.pick(5, 30), ops=ctx.pick(250, 500))
     if not ctx.quick():
         drive_tv(ctx, "tree", "Trace_Tree", "tv_Id1300.cfg", "tree", variant="mix:1300", runs=30, ops=4000, timeout=3000)
